@@ -87,6 +87,7 @@ type c15Req struct {
 
 type c15Case struct {
 	Trusted []string `json:"trusted"`
+	TLS     bool     `json:"tls"` // the client talks TLS to the proxy service (second listener of the service)
 	Peer    string   `json:"peer"`
 	Rule    c15Rule  `json:"rule"`
 	Pipe    c15Pipe  `json:"pipe"`
@@ -122,6 +123,7 @@ func c15Str(b []byte) string {
 // upstream: raw listener recording what arrives
 
 type c15Seen struct {
+	Dial    string
 	TLS     bool
 	Line    string
 	Headers [][2]string
@@ -130,6 +132,7 @@ type c15Seen struct {
 }
 
 type c15UpstreamT struct {
+	name string
 	ln   net.Listener
 	cert tls.Certificate
 	pool *x509.CertPool
@@ -188,7 +191,7 @@ func (u *c15UpstreamT) handle(conn net.Conn) {
 
 	_ = conn.SetDeadline(time.Now().Add(20 * time.Second))
 
-	seen := &c15Seen{}
+	seen := &c15Seen{Dial: u.name}
 	br := bufio.NewReader(conn)
 
 	first, err := br.Peek(1)
@@ -233,8 +236,9 @@ func (u *c15UpstreamT) handle(conn net.Conn) {
 	}
 
 	var (
-		clen    = -1
-		chunked bool
+		clen           = -1
+		chunked        bool
+		expectContinue bool
 	)
 
 	for {
@@ -254,6 +258,10 @@ func (u *c15UpstreamT) handle(conn net.Conn) {
 		seen.Headers = append(seen.Headers, [2]string{name, value})
 
 		switch strings.ToLower(name) {
+		case "expect":
+			if strings.EqualFold(value, "100-continue") {
+				expectContinue = true
+			}
 		case "content-length":
 			if clen, err = strconv.Atoi(value); err != nil {
 				seen.Err = "content-length"
@@ -263,6 +271,10 @@ func (u *c15UpstreamT) handle(conn net.Conn) {
 		case "transfer-encoding":
 			chunked = strings.EqualFold(value, "chunked")
 		}
+	}
+
+	if expectContinue {
+		_, _ = io.WriteString(rw, "HTTP/1.1 100 Continue\r\n\r\n")
 	}
 
 	switch {
@@ -299,7 +311,7 @@ func (u *c15UpstreamT) handle(conn net.Conn) {
 	_, _ = io.WriteString(rw, resp)
 }
 
-func c15NewUpstream() (*c15UpstreamT, error) {
+func c15NewUpstream(name string) (*c15UpstreamT, error) {
 	key, err := ecdsa.GenerateKey(elliptic.P256(), rand.Reader)
 	if err != nil {
 		return nil, err
@@ -336,7 +348,7 @@ func c15NewUpstream() (*c15UpstreamT, error) {
 		return nil, err
 	}
 
-	u := &c15UpstreamT{ln: ln, cert: tls.Certificate{Certificate: [][]byte{der}, PrivateKey: key}, pool: pool}
+	u := &c15UpstreamT{name: name, ln: ln, cert: tls.Certificate{Certificate: [][]byte{der}, PrivateKey: key}, pool: pool}
 
 	go u.serve()
 
@@ -364,8 +376,8 @@ type c15Fin struct {
 	all  bool
 }
 
-func (f *c15Fin) ID() string                                             { return f.id }
-func (f *c15Fin) ContinueOnError() bool                                  { return false }
+func (f *c15Fin) ID() string                                              { return f.id }
+func (f *c15Fin) ContinueOnError() bool                                   { return false }
 func (f *c15Fin) WithConfig(map[string]any) (finalizers.Finalizer, error) { return f, nil }
 
 func (f *c15Fin) Execute(ctx heimdall.Context, _ *subject.Subject) error {
@@ -473,12 +485,15 @@ type c15Service struct {
 var (
 	c15Once     sync.Once                  //nolint:gochecknoglobals
 	c15Up       *c15UpstreamT              //nolint:gochecknoglobals
+	c15Decoy    *c15UpstreamT              //nolint:gochecknoglobals
 	c15UpErr    error                      //nolint:gochecknoglobals
 	c15Services = map[string]*c15Service{} //nolint:gochecknoglobals
 )
 
-func c15GetService(trusted []string) (*c15Service, error) {
-	key := strings.Join(trusted, "|")
+// c15GetService starts the real proxy service for one trusted-proxies configuration, either on a plain or on a TLS
+// listener (the certificate of the upstream test server is reused).
+func c15GetService(trusted []string, withTLS bool) (*c15Service, error) {
+	key := fmt.Sprintf("%v|%s", withTLS, strings.Join(trusted, "|"))
 	if s, ok := c15Services[key]; ok {
 		return s, nil
 	}
@@ -501,7 +516,17 @@ func c15GetService(trusted []string) (*c15Service, error) {
 	srv := proxy.VerifC15NewService(conf, &noop.Cache{}, zerolog.Nop(), svc.sw,
 		&tls.Config{RootCAs: c15Up.pool, MinVersion: tls.VersionTLS12})
 
-	go func() { _ = srv.Serve(ln) }()
+	if withTLS {
+		srv.TLSConfig = &tls.Config{
+			Certificates: []tls.Certificate{c15Up.cert},
+			NextProtos:   []string{"http/1.1"},
+			MinVersion:   tls.VersionTLS12,
+		}
+
+		go func() { _ = srv.ServeTLS(ln, "", "") }()
+	} else {
+		go func() { _ = srv.Serve(ln) }()
+	}
 
 	c15Services[key] = svc
 
@@ -608,21 +633,49 @@ func c15Load(c *c15Case) (rule.Executor, string, error) {
 // ---------------------------------------------------------------------------------------------------------------
 // raw client
 
-func c15Send(addr, peer string, r *c15Req) (int, bool, error) {
+func c15Send(addr, peer string, withTLS bool, r *c15Req) (int, bool, error) {
 	d := net.Dialer{Timeout: 10 * time.Second}
 
 	if peer != "" {
 		d.LocalAddr = &net.TCPAddr{IP: net.ParseIP(peer)}
 	}
 
-	conn, err := d.Dial("tcp", addr)
+	var (
+		tcp net.Conn
+		err error
+	)
+
+	// the sandbox is shared: a momentary shortage of ephemeral ports is not a property of the code under test
+	for attempt := 0; attempt < 20; attempt++ {
+		if tcp, err = d.Dial("tcp", addr); err == nil {
+			break
+		}
+
+		time.Sleep(250 * time.Millisecond)
+	}
+
 	if err != nil {
 		return 0, false, err
 	}
 
-	defer verifCloseNow(conn)
+	defer verifCloseNow(tcp)
 
-	_ = conn.SetDeadline(time.Now().Add(10 * time.Second))
+	_ = tcp.SetDeadline(time.Now().Add(15 * time.Second))
+
+	var conn io.ReadWriter = tcp
+
+	if withTLS {
+		tc := tls.Client(tcp, &tls.Config{
+			InsecureSkipVerify: true, //nolint:gosec
+			NextProtos:         []string{"http/1.1"},
+			MinVersion:         tls.VersionTLS12,
+		})
+		if err = tc.Handshake(); err != nil {
+			return 0, false, err
+		}
+
+		conn = tc
+	}
 
 	var buf bytes.Buffer
 
@@ -648,7 +701,7 @@ func c15Send(addr, peer string, r *c15Req) (int, bool, error) {
 		buf.WriteString("Transfer-Encoding: chunked\r\n\r\n")
 
 		for len(body) > 0 {
-			n := min(len(body), 7)
+			n := min(len(body), 7+len(body)/3)
 			fmt.Fprintf(&buf, "%x\r\n", n)
 			buf.Write(body[:n])
 			buf.WriteString("\r\n")
@@ -668,7 +721,14 @@ func c15Send(addr, peer string, r *c15Req) (int, bool, error) {
 		return 0, false, err
 	}
 
-	resp, err := http.ReadResponse(bufio.NewReader(conn), &http.Request{Method: r.Method})
+	br := bufio.NewReader(conn)
+
+	resp, err := http.ReadResponse(br, &http.Request{Method: r.Method})
+	for err == nil && resp.StatusCode >= 100 && resp.StatusCode < 200 {
+		// interim response (100 Continue): the final one follows
+		resp, err = http.ReadResponse(br, &http.Request{Method: r.Method})
+	}
+
 	if err != nil {
 		return -1, false, nil //nolint:nilerr
 	}
@@ -701,6 +761,14 @@ func c15IsFraming(name string) bool {
 	return false
 }
 
+func c15Subst(v [][]string, from, to string) {
+	for _, h := range v {
+		if len(h) > 1 {
+			h[1] = strings.ReplaceAll(h[1], from, to)
+		}
+	}
+}
+
 func runProxyFwd(raw map[string]any) (any, error) {
 	data, err := json.Marshal(raw)
 	if err != nil {
@@ -712,13 +780,24 @@ func runProxyFwd(raw map[string]any) (any, error) {
 		return nil, err
 	}
 
-	c15Once.Do(func() { c15Up, c15UpErr = c15NewUpstream() })
+	c15Once.Do(func() {
+		if c15Up, c15UpErr = c15NewUpstream("UP"); c15UpErr == nil {
+			c15Decoy, c15UpErr = c15NewUpstream("DECOY")
+		}
+	})
 
 	if c15UpErr != nil {
 		return nil, c15UpErr
 	}
 
-	svc, err := c15GetService(c.Trusted)
+	// "DECOY" in the Host of the client, in header values of the client and of the pipeline stands for the address of
+	// a second listener: a request sent anywhere else than to forward_to.host is observable
+	decoy := c15Decoy.ln.Addr().String()
+	c.Req.Host = strings.ReplaceAll(c.Req.Host, "DECOY", decoy)
+	c15Subst(c.Req.Headers, "DECOY", decoy)
+	c15Subst(c.Pipe.Headers, "DECOY", decoy)
+
+	svc, err := c15GetService(c.Trusted, c.TLS)
 	if err != nil {
 		return nil, err
 	}
@@ -736,13 +815,14 @@ func runProxyFwd(raw map[string]any) (any, error) {
 	defer svc.sw.set(nil)
 
 	c15Up.take()
+	c15Decoy.take()
 
-	status, relayed, err := c15Send(svc.addr, c.Peer, &c.Req)
+	status, relayed, err := c15Send(svc.addr, c.Peer, c.TLS, &c.Req)
 	if err != nil {
 		return nil, err
 	}
 
-	seen := c15Up.take()
+	seen := append(c15Up.take(), c15Decoy.take()...)
 	res := map[string]any{"status": status, "relayed": relayed, "hits": len(seen)}
 
 	if len(seen) == 0 {
@@ -753,7 +833,10 @@ func runProxyFwd(raw map[string]any) (any, error) {
 
 	s := seen[len(seen)-1]
 	upHost := c15UpstreamHost(c.Rule.Host)
-	up := map[string]any{"tls": s.TLS}
+	canon := func(v string) string {
+		return c15Str([]byte(strings.ReplaceAll(strings.ReplaceAll(v, upHost, "UP"), decoy, "DECOY")))
+	}
+	up := map[string]any{"tls": s.TLS, "dial": s.Dial}
 
 	if s.Err != "" {
 		up["err"] = s.Err
@@ -777,7 +860,7 @@ func runProxyFwd(raw map[string]any) (any, error) {
 	for _, h := range s.Headers {
 		switch {
 		case strings.EqualFold(h[0], "host"):
-			host = append(host, c15Str([]byte(strings.ReplaceAll(h[1], upHost, "UP"))))
+			host = append(host, canon(h[1]))
 		case c15IsFraming(h[0]):
 		default:
 			v := h[1]
@@ -791,7 +874,7 @@ func runProxyFwd(raw map[string]any) (any, error) {
 				v = strings.Join(parts, "; ")
 			}
 
-			hdrs = append(hdrs, [2]string{c15Str([]byte(h[0])), c15Str([]byte(v))})
+			hdrs = append(hdrs, [2]string{c15Str([]byte(h[0])), canon(v)})
 		}
 	}
 
